@@ -1692,6 +1692,8 @@ class LangServer:
                 config_dict = json5.load(jsonfile)
                 if not isinstance(config_dict, dict):
                     raise ValueError("the top-level value must be an object")
+                # Nothing is applied unless every value has the right type
+                self._check_config_types(config_dict)
 
                 # Include and Exclude directories
                 self._load_config_file_dirs(config_dict)
@@ -1716,6 +1718,68 @@ class LangServer:
         except ValueError as e:
             msg = f'Error: "{e}" while reading "{self.config}" Configuration file'
             self.post_message(msg)
+
+    @staticmethod
+    def _check_config_types(config_dict: dict) -> None:
+        """Raise a ValueError for an option whose value has the wrong JSON type
+
+        Such a value would be stored as it is and fail far from here, e.g.
+        `"nthreads": "4"` when the pool of workers is created
+        """
+        kinds = {
+            "an integer": (
+                "nthreads",
+                "recursion_limit",
+                "max_line_length",
+                "max_comment_line_length",
+            ),
+            "true or false": (
+                "notify_init",
+                "incremental_sync",
+                "sort_keywords",
+                "disable_autoupdate",
+                "debug_log",
+                "autocomplete_no_prefix",
+                "autocomplete_no_snippets",
+                "autocomplete_name_only",
+                "lowercase_intrinsics",
+                "use_signature_help",
+                "hover_signature",
+                "disable_diagnostics",
+                "symbol_skip_mem",
+                "enable_code_actions",
+            ),
+            "a string": ("hover_language",),
+            "a list of strings": (
+                "source_dirs",
+                "incl_suffixes",
+                "excl_suffixes",
+                "excl_paths",
+                "pp_suffixes",
+                "include_dirs",
+            ),
+            "an object or a list of strings": ("pp_defs",),
+        }
+        for kind, keys in kinds.items():
+            for key in keys:
+                if key not in config_dict:
+                    continue
+                val = config_dict[key]
+                is_str_list = isinstance(val, list) and all(
+                    isinstance(item, str) for item in val
+                )
+                if kind == "an integer":
+                    valid = isinstance(val, int) and not isinstance(val, bool)
+                elif kind == "true or false":
+                    valid = isinstance(val, bool)
+                elif kind == "a string":
+                    valid = isinstance(val, str)
+                elif kind == "a list of strings":
+                    valid = is_str_list
+                else:
+                    valid = isinstance(val, dict) or is_str_list
+                if not valid:
+                    raise ValueError(f'option "{key}" must be {kind}')
 
     def _load_config_file_dirs(self, config_dict: dict) -> None:
         self.excl_paths = set(config_dict.get("excl_paths", self.excl_paths))
